@@ -95,8 +95,9 @@ CLAIMED = {
          "REFINEMENT (C13Ref*.lean, 21 files): over a hot source the object machine's publish / ref_count / replay (publishConnect, refCountHooks with the "
          "connecting / cancelled flags, the replay hand-over) refine ConnM for every well-numbered call sequence (publish_refines, refCount_refines, "
          "replayConn_refines: logs, number of source subscriptions, source liveness, registrations), and the C13 theorems are transported to the machine "
-         "(machine_publish_connects_only_on_connect, machine_ref_count_first_last, machine_replay_complete_history, …); the cold synchronous source is not "
-         "proved (differential check only). "
+         "(machine_publish_connects_only_on_connect, machine_ref_count_first_last, machine_replay_complete_history, …); the same over the COLD synchronous "
+         "source that emits inside the connecting call (publish_refines_cold, refCount_refines_cold, replayConn_refines_cold; 42 files). Passive "
+         "subscribers; re-entrant arrivals from inside callbacks: differential check only. "
          "Tie: implementation = object machine on all cases; implementation = ConnM (logs, source subscription count, registrations) on directly subscribed ones.",
          "§5 C13", "Lean 4 proof: induction over call sequences of mirrored state machines + machine refines them over hot sources + per-run differential correspondence"),
  "C15": ("partial: Theorems Rx.Timed.* (C15.lean) in virtual time: interval_exits_within_one_period (+ liveness), timer_exits, debounce_exits, "
